@@ -698,7 +698,13 @@ def fam_g_reducer(cls, rule):
             ds, dr = spec.den(I, slf, pt), spec.den(I, r, pt)
             emit("result-mentions-no-new-variable", list(IMPORTERS),
                  gmode.skolem_subset(I, spec.vars_of(I, r), spec.vars_of(I, slf), "vars"))
-            emit("refines", list(IMPORTERS), z3.Implies(ds.D, z3.And(dr.D, dr.V == ds.V)))
+            goal_v = dr.V == ds.V
+            if z3.is_app(dr.V) and dr.V.decl().kind() == z3.Z3_OP_DIV:
+                # a quotient a / b (the divisor is non-zero wherever the result is defined): the
+                # equivalent product form  a = V(self) * b  is what the nonlinear engines decide reliably
+                a_, b_ = dr.V.arg(0), dr.V.arg(1)
+                goal_v = z3.And(b_ != 0, a_ == ds.V * b_)
+            emit("refines", list(IMPORTERS), z3.Implies(ds.D, z3.And(dr.D, goal_v)))
         return H.run_family(prog, nm, setup, post, force_contract=("_normalize",) if rule == "_normalize_fully_reduced" else ())
     return FamilySpec(nm, list(IMPORTERS) + ["C17"], run, functions=[f"{cls.name}.{rule}"], optional=True)
 
@@ -748,11 +754,8 @@ G_REDUCERS = [("Multiply", "_reduce_product_when_multiplying_by_zero"), ("Multip
               ("Add", "_reduce_sum_by_eliminating_zeros"),
               ("Multiply", "_reduce_product_by_consolidating_constants"), ("Add", "_reduce_sum_by_consolidating_constants"),
               ("Multiply", "_reduce_product_by_eliminating_negations"),
-              ("Add", "_normalize_fully_reduced"),
+              ("Add", "_normalize_fully_reduced"), ("Multiply", "_normalize_fully_reduced"),
               ("Add", "_reduce_by_flattening_nested_sums"), ("Multiply", "_reduce_by_flattening_nested_products")]
-# (Multiply._normalize_fully_reduced goes through with the same machinery plus the reciprocal-product
-#  lemma, but its quotient obligations are decided erratically by the solvers - proved in 2 s in one
-#  process, unknown after 80 s in the next - so it stays with the bounded-arity families)
 
 _specs4 = specs
 
